@@ -30,14 +30,16 @@ Proof.
   intros r s H. unfold same_rrset in H. rewrite !andb_true_iff, !Z.eqb_eq in H. tauto.
 Qed.
 
-Lemma tups_add_to : forall r acc t, In t (tups (add_to r acc)) <-> t = tup r \/ In t (tups acc).
+Lemma tups_add_to : forall r acc t, is_singleton (r_type r) = false ->
+  In t (tups (add_to r acc)) <-> t = tup r \/ In t (tups acc).
 Proof.
-  intros r acc t. induction acc as [|s acc IH]; cbn [add_to].
+  intros r acc t Hsg. induction acc as [|s acc IH]; cbn [add_to].
   - cbn. unfold tup. intuition.
   - destruct (same_rrset r s) eqn:E.
     + apply same_rrset_fields in E. destruct E as (E1 & E2 & E3 & E4).
       unfold tups. cbn [flat_map]. rewrite !in_app_iff. unfold rs_tups at 1 3. cbn [rrset_add s_name s_class s_type s_covers s_data].
-      rewrite !in_map_iff. unfold tup. rewrite E1, E2, E3, E4. split.
+      rewrite <- E3, (rds_add_plain _ _ _ Hsg).
+      rewrite !in_map_iff. unfold tup. rewrite E1, E2, E4. split.
       * intros [[d [<- Hd]]|H]; [|auto]. apply ins_In in Hd. destruct Hd as [->|Hd]; [auto|].
         right. left. exists d. auto.
       * intros [->|[[d [<- Hd]]|H]]; [left; exists (r_data r); split; [reflexivity|apply ins_In; auto]| |auto].
@@ -45,19 +47,26 @@ Proof.
     + unfold tups in *. cbn [flat_map]. rewrite !in_app_iff, IH. tauto.
 Qed.
 
-Lemma tups_group_go : forall x f acc t,
+(* records of the singleton types other than SOA (NXT, DNAME, NSEC, CNAME) replace each other when they
+   are merged; for all other records: *)
+Definition mergeable (r : rr) : Prop := r_type r = tSOA \/ is_singleton (r_type r) = false.
+
+Lemma tups_group_go : forall x f acc t, Forall mergeable x ->
   In t (tups (group_go f acc x)) <-> In t (tups acc) \/ In t (map tup x).
 Proof.
-  induction x as [|r x IH]; intros f acc t; cbn [group_go map In]; [tauto|].
-  rewrite IH. destruct (f || (r_type r =? tSOA)).
+  induction x as [|r x IH]; intros f acc t Hm; cbn [group_go map In]; [tauto|].
+  inversion Hm as [|? ? Hr Hm']; subst.
+  rewrite IH by exact Hm'. destruct (f || (r_type r =? tSOA)) eqn:Ef.
   - unfold tups. rewrite flat_map_app, in_app_iff. cbn. unfold tup. intuition.
-  - rewrite tups_add_to. intuition.
+  - apply orb_false_iff in Ef. destruct Ef as [_ Ef]. apply Z.eqb_neq in Ef.
+    destruct Hr as [Hr|Hr]; [congruence|]. rewrite (tups_add_to _ _ _ Hr). intuition.
 Qed.
 
 (* no record is lost, none is invented: the (owner, class, type, covers, rdata) tuples of the RRsets
    are exactly those of the records *)
-Theorem group_keeps_records : forall f x t, In t (tups (group f x)) <-> In t (map tup x).
-Proof. intros f x t. unfold group. rewrite tups_group_go. cbn. tauto. Qed.
+Theorem group_keeps_records : forall f x t, Forall mergeable x ->
+  In t (tups (group f x)) <-> In t (map tup x).
+Proof. intros f x t Hm. unfold group. rewrite tups_group_go by exact Hm. cbn. tauto. Qed.
 
 (* ---- consequence: surplus records after the final SOA of an AXFR, in the same message ---- *)
 Lemma loopn_okrec : forall g x u rdt p tz ser s0, parse_ok_glue g -> Forall okrec x ->
